@@ -4,19 +4,19 @@ from common import *
 import props
 
 TEXT = {
-    "C01": "Every operation history up to the depth bound, from every small initial capacity, is executed on the real ecs_world!-generated world; after every transition every handle the history ever issued (live and stale, typed and dynamic) is pushed through every lookup path and compared with a bits->entity map; hook H1 additionally checks the slot/dense bijection.",
-    "C02": "Same exploration, with a write through a rotating mutable access path after every step; every read path x key kind is compared column by column with the reference for every live entity in every state, for archetypes of 1..16 columns incl. zero-sized, 16-aligned and heap-owning types.",
+    "C01": "Every operation history up to the depth bound, from every small initial capacity, is executed on the real ecs_world!-generated world; after every transition every handle the history ever issued (live and stale, typed and dynamic) is pushed through every lookup path and compared with a bits->entity map; hook H1 additionally checks the slot/dense bijection. A whole-population leg (2^16+1 and 2^20+1 entities, thorough also 2^24; plus an archetype whose columns are all zero-sized) sweeps every handle ever issued through every lookup path after every phase of a scripted history.",
+    "C02": "Same exploration, with a write through a rotating mutable access path after every step; every read path x key kind is compared column by column with the reference for every live entity in every state, for archetypes of 1..16 (and 17/24/32) columns incl. zero-sized, over-aligned and heap-owning types, also after clone() from every reachable state. A whole-population leg (2^16+1 and 2^20+1 entities, thorough also 2^24; plus an archetype whose columns are all zero-sized) sweeps every handle ever issued through every lookup path after every phase of a scripted history.",
     "C03": "In every explored state an exhaustive class universe of forged values (positions x generations x archetype bytes; direct handles indices x versions; handles of the other world) goes through every safe API in a debug-assertion build and an assertion-free build; thorough adds full 2^32 key sweeps over four fixed states.",
-    "C04": "Tracked component types register every construction, clone and drop; the registry must equal what the reference model says the worlds own after every step, the world is dropped at every explored state, and the totals must return to zero.",
+    "C04": "Tracked component types register every construction, clone and drop; the registry must equal what the reference model says the worlds own after every step, the world is dropped at every explored state, and the totals must return to zero. A whole-population leg (2^16+1 and 2^20+1 entities, thorough also 2^24; plus an archetype whose columns are all zero-sized) sweeps every handle ever issued through every lookup path after every phase of a scripted history.",
     "C05": "The real binding/generation code (macro sources compiled as a library) is run over every world x parameter list x generator inside the bound and compared with an independent set computation; a systematic stride is compiled and executed with the real rustc, ill-formed queries must fail with the expected diagnostic.",
-    "C06": "In every explored state every iteration API is run and compared (exactly-once multiset, handle/data pairing, count == len); every Break position of the multi-archetype queries is tried.",
-    "C07": "All 4^n decision functions of ecs_iter_destroy! are transitions of the explored graph (typed and multi-archetype scopes), so loops start from churned, grown and refilled layouts and are followed by further exploration.",
-    "C08": "A world-wide set of issued handles is kept by the reference; every create in every history must return a value outside it; hook H2 places the generations just below 2^32-1 so that histories cross the overflow boundary (thorough: a hook-free run of 2^32-1 real cycles).",
+    "C06": "In every explored state every iteration API is run and compared (exactly-once multiset, handle/data pairing, count == len); every Break position of the multi-archetype queries is tried. A whole-population leg (2^16+1 and 2^20+1 entities, thorough also 2^24; plus an archetype whose columns are all zero-sized) sweeps every handle ever issued through every lookup path after every phase of a scripted history.",
+    "C07": "All 4^n decision functions of ecs_iter_destroy! are transitions of the explored graph (typed and multi-archetype scopes), so loops start from churned, grown and refilled layouts and are followed by further exploration. A whole-population leg (2^16+1 and 2^20+1 entities, thorough also 2^24; plus an archetype whose columns are all zero-sized) sweeps every handle ever issued through every lookup path after every phase of a scripted history.",
+    "C08": "A world-wide set of issued handles is kept by the reference; every create in every history must return a value outside it; hook H2 places the generations just below 2^32-1 so that histories cross the overflow boundary (thorough: a hook-free run of 2^32-1 real cycles). A whole-population leg (2^16+1 and 2^20+1 entities, thorough also 2^24; plus an archetype whose columns are all zero-sized) sweeps every handle ever issued through every lookup path after every phase of a scripted history.",
     "C09": "Inductive formulation evaluated on every transition (every direct handle valid before the step is afterwards dead iff the step removed from its archetype), at every minting route, and over a per-state (index, version) universe.",
     "C10": "A panic at every callback point (closure of each macro, k-th Clone, k-th Drop in destroy / ecs_iter_destroy! / world drop, borrow conflict, version overflows) is a transition; afterwards the exploration continues and all other oracles keep being evaluated.",
     "C11": "Complete matrix of nested runtime-borrowed accesses up to the depth bound against a reader/writer table; after every cell, unwound or not, no guard may be left behind.",
-    "C12": "len/capacity arithmetic after every step of every history from capacities 0..4; in every state each archetype is refilled to exactly capacity() with create_within_capacity and one more attempt must fail; free-list shape via hook H1.",
-    "C13": "clone() is a transition from every reachable state; the two worlds are then driven through all diverging histories against two independent copies of the reference, with equal representation at the split, and both are refilled to capacity.",
+    "C12": "len/capacity arithmetic after every step of every history from capacities 0..4; in every state each archetype is refilled to exactly capacity() with create_within_capacity and one more attempt must fail; free-list shape via hook H1. A whole-population leg (2^16+1 and 2^20+1 entities, thorough also 2^24; plus an archetype whose columns are all zero-sized) sweeps every handle ever issued through every lookup path after every phase of a scripted history.",
+    "C13": "clone() is a transition from every reachable state; the two worlds are then driven through all diverging histories against two independent copies of the reference, with equal representation at the split, and both are refilled to capacity. A whole-population leg (2^16+1 and 2^20+1 entities, thorough also 2^24; plus an archetype whose columns are all zero-sized) sweeps every handle ever issued through every lookup path after every phase of a scripted history.",
     "C14": "Algebraic laws of the handle conversions evaluated on every element of the enumerated key space (boundary set in quick, all 2^32 keys x 4 generations in thorough) and on every handle issued in explored histories.",
     "C15": "Every declaration inside the bound through the real DataWorld::new against the discriminant fold; systematic stride compiled with the real rustc.",
     "C16": "Every decoration x truth vector inside the bound through the real code, differentially against the undecorated twin; decorated/twin pairs compiled and run with the real rustc (exercises the generated cfg macro chain).",
